@@ -97,12 +97,14 @@ CLAIMED = {
              "Theorems, for EVERY graph (cycles, self-imports, repeated requests, any number of throwing bodies) and every sequence of Evaluate "
              "calls: visit_grows / visit_once (invariants of the walk), bodies_run_once (no module body runs twice, ever), "
              "reevaluate_runs_nothing (evaluating a module that already has a status runs no body, changes no status and returns the recorded "
-             "error if there is one), walked_has_status (so that applies to every module an earlier Evaluate reached), deps_walked_before_body (when a module's body runs, every module it requests has already been walked: it is evaluated, or still evaluating — an ancestor on the stack, i.e. a cycle). The model is the "
+             "error if there is one), walked_has_status (so that applies to every module an earlier Evaluate reached), deps_walked_before_body (when a module's body runs, every module it requests has already been walked), "
+             "deps_before_dependents / acyclic_dep_ran_earlier (DEPENDENCY ORDER of the final trace: if x's body ran, every module d it requests ran its body EARLIER in the trace unless x is reachable from d, i.e. unless the request lies on a cycle — proved by an invariant threaded through the whole walk that ties the evaluated / evaluating statuses to the trace, the spec's stack and the chain of calls in progress, see Order.lean), "
+             "evaluated_ran (a module recorded as evaluated did run), fuel_suffices (the fuel the model's Evaluate passes is never what stops the walk, on any graph: a measure on unvisited modules). The model is the "
              "executable spec: on generated graphs served by a counting in-memory loader the engine's sequence of bodies and the outcome of "
              "every Evaluate must equal the model's; host loads and parses are counted (at most one per module); imported bindings are "
              "checked to be live.",
-        technique="Lean 4 invariant proofs over a model of InnerModuleEvaluation (once-only, idempotent re-evaluation) + model-predicted vs real evaluation order and outcomes on generated module graphs",
-        note="dependency order is proved as deps_walked_before_body (every request walked before the body); that a walked non-ancestor's body is earlier in the trace is checked through the model's trace only; top-level await, dynamic import, synthetic/JSON modules are outside the model.",
+        technique="Lean 4 invariant proofs over a model of InnerModuleEvaluation (once-only, idempotent re-evaluation, dependency order of the trace for all graphs, fuel sufficiency) + model-predicted vs real evaluation order and outcomes on generated module graphs",
+        note="top-level await, dynamic import, synthetic/JSON modules are outside the model (hand-derived scenarios only); 'an error rejects exactly its dependents' is carried by the model's statuses and compared, not stated as a theorem.",
     ),
     "C10": dict(
         level="proof",
